@@ -9,6 +9,7 @@ used; at any time only one of them runs.
 import os
 import sys
 import threading
+import time
 
 REPO = os.environ.get('VERIF_REPO', '/repo')
 PKGDIR = os.path.join(REPO, 'oslo_policy') + os.sep
@@ -105,5 +106,29 @@ def run_other(fn, blocked_after=1.0):
     t = threading.Thread(target=body, daemon=True)
     holder['thread'] = t
     t.start()
-    finished = holder['done'].wait(blocked_after)
-    return finished, holder
+    # Finished quickly?  Otherwise decide whether the thread is *blocked*
+    # (same instruction of a frame inside the package under test for the
+    # whole grace period: waiting on a lock a repair may have added) or just
+    # slow (loaded machine, solver call): only a blocked thread is left
+    # behind.
+    deadline = time.time() + 120
+    same_since = None
+    last = None
+    while True:
+        if holder['done'].wait(0.05):
+            return True, holder
+        fr = sys._current_frames().get(t.ident)
+        sig = None
+        if fr is not None and fr.f_code.co_filename.startswith(PKGDIR):
+            sig = (id(fr), fr.f_lasti)
+        now = time.time()
+        if sig is not None and sig == last:
+            if same_since is None:
+                same_since = now
+            elif now - same_since >= blocked_after:
+                return False, holder
+        else:
+            same_since = None
+        last = sig
+        if now > deadline:
+            return False, holder
